@@ -505,7 +505,8 @@ func (prog Progress) walkTransforming(n datamodel.Node, s selector.Selector, fn 
 
 func contains(interest []datamodel.PathSegment, candidate datamodel.PathSegment) bool {
 	for _, i := range interest {
-		if i == candidate {
+		// compare as the walk functions do: a list index and its string form address the same child
+		if i.Equals(candidate) {
 			return true
 		}
 	}
